@@ -161,6 +161,22 @@ class KernelSim(WorldBase):
                 to = g.random() < 0.5
                 for t in (2, 1000, g.choice(THRESHOLDS)):
                     evs.append(["flat", {"dims": [M, Kk, N], "ent": ent, "ncu": t, "traced_outer": to}])
+            if g.random() < 0.5:
+                # projected fibers (project_i traces), the two idioms the library's tests use under collection
+                B, Kk = g.randint(1, 3), g.randint(2, 7)
+                expl = cfg.get("explicit", 0.0)
+                ent = [[[b, k], (0 if g.random() < expl else g.choice([1, 2, 3]))] for b in range(B) for k in range(Kk)
+                       if g.random() < 0.6]
+                off = g.choice([0, 1, 3])
+                iv = None
+                if g.random() < 0.5:
+                    lo = g.randint(0, Kk + off)
+                    iv = [lo, g.randint(lo + 1, Kk + off + 2)]
+                idiom = g.choice([1, 2])
+                sp = g.choice([None, 0, 1]) if (idiom == 1 and iv is None) else None
+                for t in (2, 1000, g.choice(THRESHOLDS)):
+                    evs.append(["proj", {"dims": [B, Kk], "ent": ent, "off": off, "interval": iv, "idiom": idiom,
+                                         "start_pos": sp, "ncu": t}])
             if False and g.random() < 0.5:
                 # convolution by projection: project_i traces, matched ranks.  DISABLED: under collection the
                 # library needs the source rank matched to the destination rank *before* the destination rank is
@@ -268,7 +284,10 @@ class KernelSim(WorldBase):
         p = {"mixed": 0.5, "heavy": 0.85}[level]
         if f.random() >= p:
             return
-        kind = f.choice(["body", "body_abandon", "oserr", "oserr_abandon", "undrained", "abandon"])
+        kind = f.choice(["body", "body_abandon", "oserr", "oserr_abandon", "undrained", "abandon", "break", "break"])
+        if kind == "break":
+            # loop bodies of the earlier session leave their loops early at these steps; the session ends normally
+            s["break_at"] = sorted({f.randint(1, 25) for _ in range(f.randint(1, 4))})
         if kind.startswith("body"):
             s["abort_at"] = f.randint(1, 25)
         if kind.startswith("oserr"):
@@ -299,6 +318,8 @@ class KernelSim(WorldBase):
                 return self.ev_conv(ev[1])
             if kind == "tilepop":
                 return self.ev_tilepop(ev[1])
+            if kind == "proj":
+                return self.ev_proj(ev[1])
             if kind == "swaps":
                 return self.ev_swaps(ev[1])
             if self.case is None:
@@ -442,8 +463,10 @@ class KernelSim(WorldBase):
             if isect is not None:
                 for typ in isect["types"]:
                     Metrics.trace(s["rank"], typ, consumable=True)
-            z, zr = K.run_kernel(self.case, self.tensors, flow, counts, abort_at=s.get("abort_at"), expect=expect,
+            z, zr = K.run_kernel(self.case, self.tensors, flow, counts, abort_at=s.get("abort_at"), expect=expect, break_at=s.get("break_at"),
                                  hook=hook)
+            if s.get("break_at"):
+                self.fault("loop-left-early")
             if role == "consume":
                 self._drain(s["reg"], batches)
             if isect is not None:
@@ -518,6 +541,16 @@ class KernelSim(WorldBase):
             return
         comp = (out["dump"] or {}).get("Compute", {})
         got = [comp.get("payload_mul", 0), comp.get("payload_update", 0), comp.get("payload_add", 0)]
+        # the documented way to read the counts
+        try:
+            via = [Compute.numOps(out["dump"], op) for op in ("mul", "update", "add")]
+        except Exception as e:
+            self.V("C15", "C15.op-counts", "session",
+                   f"Compute.numOps(Metrics.dump(), op) raised {type(e).__name__}: {str(e)[:40]} for a kernel that executed "
+                   f"mul/update/add = {out['counts']} ({s['flow']})")
+            via = got
+        if via != got:
+            self.V("C15", "C15.op-counts", "session", f"Compute.numOps gives {via}, the dump holds {got}")
         if got != out["counts"]:
             self.V("C15", "C15.op-counts", "session",
                    f"Metrics reports mul/update/add = {got}, the kernel executed {out['counts']} ({s['flow']})")
@@ -884,6 +917,129 @@ class KernelSim(WorldBase):
             self.V("C16", "C16.flush-independent", "flat", f"trace {bad[0]} of the flattened kernel differs between flush thresholds")
         self.probe("flattened_rank_sessions")
         return {"rows": len(exp_n)}
+
+    def ev_proj(self, a):
+        """a kernel that walks projected fibers (C16, trace type project_i):
+              for b, a_k in a_b:
+                  idiom 1:  for m, p in a_k.project(f, rank_id="M", interval=iv, start_pos=sp): ...
+                  idiom 2:  for m, p in a_k.project(f, rank_id="M", interval=iv, tick=True).iterOccupancy(tick=False): ...
+        (both idioms are the ones the library's own tests use under collection).  Rows of K-project_0: one per element
+        the projection delivers, in order, carrying the source element's coordinate and its position in a_k."""
+        B, Kk = a["dims"]
+        off = a["off"]
+        iv = tuple(a["interval"]) if a.get("interval") else None
+        sp = a.get("start_pos")
+        idiom = a["idiom"]
+        A = Tensor(rank_ids=["B", "K"], shape=[B, Kk])
+        for pt, v in a["ent"]:
+            r = A.getPayloadRef(*pt)
+            r <<= v
+        a_b = A.getRoot()
+        if sp is not None and any(len(f.coords) <= sp for f in a_b.payloads):
+            raise Skip("start_pos beyond a fiber")
+        self.kexec += 1
+        self.nsess += 1
+        fs = self.fs
+        fs.reset_counters()
+        prefix = os.path.join(self.scratch, "pj")
+        inner = "M" if idiom == 1 else "K"
+        exp_proj, exp_outer, exp_inner = [], [], []
+        got_seq, want_seq = [], []
+        err = None
+        Metrics.beginCollect(prefix)
+        try:
+            Metrics.setNumCachedUses(a["ncu"])
+            Metrics.trace("B", "iter")
+            Metrics.trace(inner, "iter")
+            Metrics.trace("K", "project_0")
+            pb = 0
+            for b, a_k in a_b:
+                exp_outer.append([pb, b, a_b.coords.index(b)])
+                stored = list(zip(a_k.coords, a_k.payloads))
+                first = sp or 0
+                kidx = 0          # index of the K iteration (idiom 2: every non-empty source element ticks)
+                j = 0
+                for pos in range(first, len(stored)):
+                    k, pl = stored[pos]
+                    if Payload.get(pl) == 0:
+                        continue
+                    m = k + off
+                    if idiom == 2:
+                        # (the element that ends the interval was fetched from the source too: it has an iter row)
+                        exp_inner.append([pb, kidx, b, k, pos])
+                    if iv is not None and m >= iv[1]:
+                        break
+                    if iv is None or iv[0] <= m:
+                        exp_proj.append([pb, j if idiom == 1 else kidx, b, k, pos])
+                        if idiom == 1:
+                            exp_inner.append([pb, j, b, m, j])
+                        want_seq.append((b, m, Payload.get(pl)))
+                        j += 1
+                    kidx += 1
+                kw = {"trans_fn": (lambda k, off=off: k + off), "rank_id": "M"}
+                if iv is not None:
+                    kw["interval"] = iv
+                if idiom == 1:
+                    if sp is not None:
+                        kw["start_pos"] = sp
+                    it = a_k.project(**kw)
+                else:
+                    it = a_k.project(tick=True, **kw).iterOccupancy(tick=False)
+                for m, pl in it:
+                    got_seq.append((b, m, Payload.get(pl)))
+                pb += 1
+        except Exception as e:
+            err = f"{type(e).__name__}: {str(e)[:80]}"
+        try:
+            Metrics.endCollect()
+        except Exception as e:
+            err = err or f"endCollect {type(e).__name__}"
+        if self.prop != "C16":
+            return {"err": err}
+        if err:
+            self.V("C16", "C16.no-exception", "proj", f"kernel over projected fibers raised {err} ({a})")
+            return {"err": err}
+        if got_seq != want_seq:
+            # (what project() delivers is C07's business; the trace oracle needs the kernel to be the expected one)
+            self.probe("proj_sequence_differs")
+            return {"err": "sequence"}
+        files = {}
+        for p in sorted(fs.written):
+            if os.path.exists(p):
+                with open(p) as fh:
+                    files[os.path.basename(p)] = fh.read()
+        self.probe("proj_checked:idiom%d" % idiom)
+
+        def check(name, header, want, lag=False):
+            text = files.get(name)
+            if text is None:
+                self.V("C16", "C16.header", "proj", f"no trace file {name}")
+                return
+            h, rows = TR.parse(text)
+            if not want and not rows:
+                return
+            if h != header:
+                self.V("C16", "C16.header", "proj", f"trace {name} has header {h}, expected {header} ({a})")
+                return
+            if lag:
+                # idiom 2: the row carries the stamp current when the previous element was delivered (the library's
+                # own test pins that); the property only asks for stamp order, so: not later than the element's own
+                # iteration, never negative, non-decreasing
+                ok = len(rows) == len(want) and all(
+                    r[0] == w[0] and r[2:] == w[2:] and 0 <= r[1] <= w[1]
+                    for r, w in zip(rows, want)) and all(tuple(x[:2]) <= tuple(y[:2]) for x, y in zip(rows, rows[1:]))
+            else:
+                ok = rows == want
+            if not ok:
+                i = next((i for i, (r, w) in enumerate(zip(rows, want)) if r != w and not lag), min(len(rows), len(want)))
+                self.V("C16", "C16.rows", "proj",
+                       f"trace {name} (idiom {idiom}, interval {iv}, start_pos {sp}): {len(rows)} rows, expected {len(want)}; "
+                       f"first difference at row {i}: got {rows[i] if i < len(rows) else None}, "
+                       f"expected {want[i] if i < len(want) else None} (stamp, coordinates, position); fibers {[f.coords for f in a_b.payloads]}")
+        check("pj-B-iter.csv", ["B_pos", "B", "fiber_pos"], exp_outer)
+        check(f"pj-{inner}-iter.csv", ["B_pos", inner + "_pos", "B", inner, "fiber_pos"], exp_inner)
+        check("pj-K-project_0.csv", ["B_pos", inner + "_pos", "B", inner, "fiber_pos"], exp_proj, lag=(idiom == 2))
+        return {"rows": len(exp_proj)}
 
     def ev_conv(self, a):
         """O[q] = sum_r W[r] * I[q + r], weight stationary, input projected onto the output rank"""
